@@ -126,3 +126,14 @@ Definition run_case (t : tree) : tree :=
   | T 13 [s; T n _] => zs (slice_elems (dec_slice s) n)
   | _ => err (-2)
   end.
+
+(* ---------- vocabulary of the partition theorems ---------- *)
+Definition in_tile (x : Z) (t : Z * Z) : bool := (fst t <=? x) && (x <? snd t).
+Fixpoint in_chunk (idx : list Z) (ch : list (Z * Z)) : bool :=
+  match idx, ch with
+  | [], [] => true
+  | x :: idx', t :: ch' => in_tile x t && in_chunk idx' ch'
+  | _, _ => false
+  end.
+Definition count {A} (p : A -> bool) (l : list A) : nat := length (filter p l).
+Definition chunk_size (ch : list (Z * Z)) : Z := zprod (map (fun t => snd t - fst t) ch).
